@@ -25,7 +25,7 @@ theorem inv_step {ga : Nat → Int} {s s' : S} {t : Tid} {a : Act} (hi : Inv ga 
   | wAll => exact inv_wAll hi hs
   | wNotify => exact inv_wNotify hi hs
   | wkAcquire => exact inv_wkAcquire hi hs
-  | wkPop => exact inv_wkPop hi hs
+  | wkPop b => exact inv_wkPop hi hs
   | wkWait => exact inv_wkWait hi hs
   | wkSpurious => exact inv_wkSpurious hi hs
   | wkReacquire => exact inv_wkReacquire hi hs
